@@ -19,7 +19,7 @@ struct E3 : Engine {
 		J p = J::obj(); p["engine"] = "E3"; p["prop"] = prop;
 		int nthreads = 2 + r.below(thorough ? 7 : 4); int nkeys = 1 + r.below(3); int ntrig = r.below(3); p["coll"] = (int)r.below(2); if(p.geti("coll")) nkeys = 2 + r.below(4);   // coll: the keys collide in the cache's hash table
 		static const int limits[] = {0,0,0,1,2,4}; p["limit"] = limits[r.below(6)];
-		p["backend"] = r.below(4) == 0 ? "process" : "thread"; if(p.gets("backend") == "process" && r.below(2)) p["pbig"] = 1;   // pbig: values of 20..120 KB in the 512 KiB segment - the allocator splits and merges its largest blocks, entries are evicted under memory pressure   // process: the shared-memory cache (its own allocator, process-shared locks) used by the threads of one process
+		p["backend"] = r.below(8) == 0 ? "process" : "thread"; if(p.gets("backend") == "process" && r.below(2)) p["pbig"] = 1;   // pbig: values of 20..120 KB in the 512 KiB segment - the allocator splits and merges its largest blocks, entries are evicted under memory pressure   // process: the shared-memory cache (its own allocator, process-shared locks) used by the threads of one process
 		p["sched_seed"] = (unsigned long long)(r.next() >> 8); p["strategy"] = (int)r.below(3); p["pct_depth"] = 1 + (int)r.below(3); p["pct_len"] = 20 + (int)r.below(400);
 		int budget = 24 + (thorough ? 8 : 0);   // total ops across threads stays tractable for the linearizability search
 		// an optional sequential prefix populates the cache (not part of the concurrent history but part of the model's start state)
@@ -46,6 +46,9 @@ struct E3 : Engine {
 	static std::string key_name(int k){ k = ((k % 100) + 100) % 100; static const char *coll[] = {"k0","j@","iP","h`","k0_xybkckgp"}; if(colliding() && k < 5) return coll[k];   /* the fifth has "k0" as a proper prefix and the same hash */ return "k" + std::to_string(k); }
 	static std::string trig_name(int t){ t = ((t % 1000) + 1000) % 1000; if(colliding() && t == 1) return "t0_cybbclep"; return t >= 100 ? key_name(t-100) : "t" + std::to_string(t); }
 
+	// the shared-memory segment is a process-wide static that is never released, and what earlier runs left in it (allocator layout, table sizes) changes later
+	// behaviour under memory pressure: every process-shared run executes in a child forked from the pristine parent, like E2's
+	bool fork_per_run(const J &plan) override { return plan.gets("backend") == "process"; }
 	RunResult run(const J &plan) override {
 		RunResult res; colliding() = plan.geti("coll") != 0;
 		simk::Params sp; sp.sched_seed = (uint64_t)plan.geti("sched_seed",1); sp.fault_seed = 1; sp.strategy = (int)(((plan.geti("strategy") % 3) + 3) % 3);
